@@ -47,11 +47,24 @@ def _skeleton(ctx, name, body):
             sk["fresh_T"] += c.edges_for(True)
             sk["fresh_F"] += c.edges_for(False)
             sk["timeout_terms"].append(t[3][1])
-        elif isinstance(t, tuple) and t[0] == "binop" and t[1] == "Lt" and var_name(t[2]) == "active_count":
+        elif isinstance(t, tuple) and t[0] == "binop" and t[1] == "Lt" and var_name(t[2]) and _is_min_operand(ctx, body, t[3]):
+            # `<count of kept sessions> < <configured minimum>`: the count variable is whatever is compared with the minimum
             sk["min_T"] += c.edges_for(True)
             sk["min_F"] += c.edges_for(False)
             sk["min_terms"].append(t[3])
+            sk["count_var"] = var_name(t[2])
     return sk
+
+
+def _is_min_operand(ctx, body, t):
+    v = var_name(t)
+    if not v:
+        return False
+    if v.endswith(".min_idle_sessions"):
+        return True
+    ups, parent = upvar_sources(ctx, body)
+    src = ups.get(v)
+    return src is not None and (var_name(src) or "").endswith(".min_idle_sessions")
 
 
 def r1_entry_points(ctx):
@@ -116,7 +129,7 @@ def r2_to_r6_reapers(ctx):
             ctx.ob("R12.3", "%s:closed-sessions-selected" % name, False, "", "closed sessions are not purged from the idle map by this reaper")
         ctx.floor("R12.2", "%s: selections of live sessions" % name, n_live, 1)
         # the count compared with min_idle: every definition other than the initial constant is an increment on a path where the session is open
-        ac = [l for l, nm in body.debug.items() if nm == "active_count"]
+        ac = [l for l, nm in body.debug.items() if nm == sk.get("count_var")]
         if not ac:
             ctx.missing("R12.2", "%s: active_count variable" % name)
         else:
@@ -126,7 +139,7 @@ def r2_to_r6_reapers(ctx):
                 if kind == "assign" and payload["r"] == "use" and payload["op"]["o"] == "const":
                     continue
                 t = o._rvalue(payload, (), bi, 0, frozenset()) if kind == "assign" else None
-                is_inc = isinstance(t, tuple) and t[0] == "binop" and t[1] == "Add" and var_name(t[2]) == "active_count"
+                is_inc = isinstance(t, tuple) and t[0] == "binop" and t[1] == "Add" and var_name(t[2]) == sk.get("count_var")
                 guarded = cfg.edges_dominate(sk["closed_F"], bi) and (cfg.edges_dominate(sk["fresh_T"], bi) or cfg.edges_dominate(sk["min_T"], bi))
                 incs += 1
                 ctx.ob("R12.2", "%s:kept-count-counts-open-sessions#%d" % (name, incs), is_inc and guarded, "src/client/session_pool.rs:%s" % body.blocks[bi]["tspan"]["line"],
